@@ -50,6 +50,40 @@ CLAIMED = {
          'against live CaselessDict, Parameters and Component objects (all sequences <= 2, sampled 3, random 30-step); '
          'str.upper idempotence (checked exhaustively each run).',
          'DESIGN.md 6/C17'),
+ 'C16': ('Lean 4 proof (invariant by induction over setter/deleter histories; case analysis of the getters) + differential correspondence',
+         'Theorems for every history and every stored state: after any sequence of setter/deleter calls never both the '
+         'end property and DURATION; whenever start and end are defined end = start + DURATION, = start + 1 day for a '
+         'date-only start, = start for a date-time-only start, duration = end - start; every getter error is '
+         'InvalidCalendar or IncompleteComponent and every setter error TypeError; each forbidden state (both end and '
+         'DURATION, date/date-time mismatch, floating/zoned mismatch, time-of-day DURATION on a date, wrong-typed entry) '
+         'is reported by start, end and duration alike; Journal statements. add() can create a both-present state '
+         '(witness), so exclusivity is stated for setter/deleter histories and "reported" for arbitrary states.',
+         'Trusted: Lean kernel; hand model of the descriptors and getters tied by correspondence (all op sequences <= 2 '
+         'over every accessor x argument kind x Event/Todo/Journal, random 3-8 step histories, parsed property '
+         'combinations, both providers); zone offsets are inputs of the model (taken from the provider per value).',
+         'DESIGN.md 6/C16'),
+ 'C14': ('Lean 4 proof (list induction; arithmetic over Int instants) + differential correspondence',
+         'Theorems over all Int instants and all alarm lists: the computed times are, alarm by alarm, '
+         '[(anchor + T) + k*D | k <= R] for relative triggers (anchor = start, or end unless RELATED is START in any '
+         'case) and [T + k*D] for absolute ones, R = REPEAT when DURATION is present else 0; alarms without TRIGGER '
+         'contribute nothing; Alarm.triggers (cumulative) and Alarms.times (multiplicative) agree; absolute alarms do '
+         'not depend on start/end and are always computed; errors are exactly ComponentStartMissing/ComponentEndMissing '
+         'when a needed anchor is absent. + is exact elapsed time (pytz/UTC/fixed offsets); zoneinfo wall-clock '
+         'arithmetic across a DST change is characterised (wallclock_exact_iff) and is a recorded finding.',
+         'Trusted: Lean kernel; hand model of alarms.py tied by correspondence (events/todos x start/end kinds x alarm '
+         'lists, API-built and parsed, both providers, instants clustered at DST changes); start/end are inputs here '
+         '(their derivation is C16); provider localize tabulated per case.',
+         'DESIGN.md 6/C14'),
+ 'C15': ('Lean 4 proof (decision logic over Int instants, all orderings incl. ties) + differential correspondence',
+         'Theorems over all Int instants: acknowledged-until is the later of the two acknowledgements; active iff '
+         'nothing acknowledged, or snoozed past the acknowledgement, or trigger later than it; a snooze later than the '
+         'trigger moves the reported trigger; the active list is a sublist of all times; a later acknowledgement never '
+         'activates an alarm (alarm-level and component-level); the only error is LocalTimezoneMissing and only for '
+         'floating/date triggers without a local time zone; DTSTAMP vs X-MOZ-LASTACK/SNOOZE wiring.',
+         'Trusted: Lean kernel; hand model of AlarmTime/Alarms tied by correspondence (every ordering-with-ties of '
+         'trigger, alarm ack, component ack, snooze, each possibly absent x trigger kind x local tz x Thunderbird, API '
+         'and parsed, both providers).',
+         'DESIGN.md 6/C15'),
 }
 
 PENDING = 'check not built yet in this session; design in DESIGN.md section 6 (work in progress, not a claim)'
